@@ -1334,3 +1334,145 @@ Example ex_view_hydrates :
   | None => False
   end.
 Proof. vm_compute. reflexivity. Qed.
+
+(** ** hydrate_binds_in_order (positional form) *)
+(** the state hydration returns is exactly [st_of]: every part of the view is bound to the node at
+    the position where the printer put it (child indices counted over the expected DOM, separators
+    skipped), elements before their children, list items before their marker *)
+Theorem hydrate_binds_positionally v root st h :
+  wf false v = true -> hydrate_parsed v = Some (root, st, h) ->
+  root = root_of (fst (dom_of v FirstChild)) /\ st = st_of v FirstChild [] 0.
+Proof.
+  intros Hwf H. destruct (hydrate_parsed_spec v root st h Hwf H) as (A & B & _). auto.
+Qed.
+
+(** ** hydrated_behaves_as_built (structural form) *)
+(** the parsed DOM with every bound text node holding its view string: the DOM once the resets
+    listed by [hydrate_creates_nothing] are applied *)
+Fixpoint dom_hyd (v : view) (pos : Position) {struct v} : list dom * Position :=
+  let seq := fix seq (l : list view) (pos : Position) {struct l} : list dom * Position :=
+    match l with
+    | [] => ([], pos)
+    | v :: l => let '(b1, p1) := dom_hyd v pos in
+                let '(b2, p2) := seq l p1 in (b1 ++ b2, p2)
+    end in
+  match v with
+  | VText s =>
+      ((if pos_eqb pos NextChildAfterText then [sep] else []) ++ [DText s], NextChildAfterText)
+  | VUnit | VNone => ([sep], NextChild)
+  | VElem n a ks =>
+      ([DElem n a (match ks with [] => [] | _ => fst (seq ks FirstChild) end)], NextChild)
+  | VVoid n a => ([DElem n a []], NextChild)
+  | VTuple vs => seq vs pos
+  | VSome v | VLeft v | VRight v | VAny v => dom_hyd v pos
+  | VVec vs | VKeyed vs => let '(b, _) := seq vs pos in (b ++ [sep], NextChild)
+  | VInert e => ([e], NextChild)
+  end.
+Fixpoint hyd_seq (l : list view) (pos : Position) : list dom * Position :=
+  match l with
+  | [] => ([], pos)
+  | v :: l => let '(b1, p1) := dom_hyd v pos in
+              let '(b2, p2) := hyd_seq l p1 in (b1 ++ b2, p2)
+  end.
+
+Lemma dom_hyd_tuple vs pos : dom_hyd (VTuple vs) pos = hyd_seq vs pos.
+Proof. reflexivity. Qed.
+Lemma dom_hyd_elem n a ks pos :
+  dom_hyd (VElem n a ks) pos = ([DElem n a (fst (hyd_seq ks FirstChild))], NextChild).
+Proof. destruct ks; reflexivity. Qed.
+Lemma dom_hyd_vec vs pos : dom_hyd (VVec vs) pos = (fst (hyd_seq vs pos) ++ [sep], NextChild).
+Proof.
+  change (dom_hyd (VVec vs) pos) with (let '(b, _) := hyd_seq vs pos in (b ++ [sep], NextChild)).
+  now destruct (hyd_seq vs pos).
+Qed.
+Lemma dom_hyd_keyed vs pos : dom_hyd (VKeyed vs) pos = (fst (hyd_seq vs pos) ++ [sep], NextChild).
+Proof.
+  change (dom_hyd (VKeyed vs) pos) with (let '(b, _) := hyd_seq vs pos in (b ++ [sep], NextChild)).
+  now destruct (hyd_seq vs pos).
+Qed.
+
+Lemma strip_elem n a ks : strip (DElem n a ks) = [DElem n a (strip_forest ks)].
+Proof. reflexivity. Qed.
+Lemma strip_forest_app a b : strip_forest (a ++ b) = strip_forest a ++ strip_forest b.
+Proof. induction a as [|x a IH]; [reflexivity|]. cbn [app strip_forest]. now rewrite IH, app_assoc. Qed.
+Lemma dom_csr_elem n a ks : dom_csr (VElem n a ks) = [DElem n a (csr_seq ks)].
+Proof. reflexivity. Qed.
+Lemma dom_csr_tuple vs : dom_csr (VTuple vs) = csr_seq vs.
+Proof. reflexivity. Qed.
+Lemma dom_csr_vec vs : dom_csr (VVec vs) = csr_seq vs ++ [sep].
+Proof. reflexivity. Qed.
+Lemma dom_csr_keyed vs : dom_csr (VKeyed vs) = csr_seq vs ++ [sep].
+Proof. reflexivity. Qed.
+
+(** marker comments aside, the hydrated DOM is the client-built DOM — for every view of the grammar
+    (no side condition) and every starting position *)
+Theorem hydrated_as_built v : forall pos,
+  strip_forest (fst (dom_hyd v pos)) = strip_forest (dom_csr v).
+Proof.
+  assert (Hseq : forall vs, Forall (fun v => forall pos,
+                   strip_forest (fst (dom_hyd v pos)) = strip_forest (dom_csr v)) vs ->
+                 forall pos, strip_forest (fst (hyd_seq vs pos)) = strip_forest (csr_seq vs)).
+  { intros vs IH. induction IH as [|x vs Hx _ IHvs]; intro pos; [reflexivity|].
+    cbn [hyd_seq csr_seq]. specialize (Hx pos). destruct (dom_hyd x pos) as [b1 p1].
+    specialize (IHvs p1). destruct (hyd_seq vs p1) as [b2 p2]. cbn [fst] in *.
+    now rewrite !strip_forest_app, Hx, IHvs. }
+  induction v as [s| |n a ks IH|n a|vs IH|v IH| |v IH|v IH|vs IH|v IH|vs IH|e] using view_ind'; intro pos.
+  - cbn [dom_hyd dom_csr fst]. destruct (pos_eqb pos NextChildAfterText); reflexivity.
+  - reflexivity.
+  - rewrite dom_hyd_elem, dom_csr_elem. cbn [fst strip_forest]. rewrite !strip_elem.
+    now rewrite (Hseq ks IH FirstChild).
+  - reflexivity.
+  - rewrite dom_hyd_tuple, dom_csr_tuple. apply (Hseq vs IH).
+  - apply IH.
+  - reflexivity.
+  - apply IH.
+  - apply IH.
+  - rewrite dom_hyd_vec, dom_csr_vec. cbn [fst]. now rewrite !strip_forest_app, (Hseq vs IH pos).
+  - apply IH.
+  - rewrite dom_hyd_keyed, dom_csr_keyed. cbn [fst]. now rewrite !strip_forest_app, (Hseq vs IH pos).
+  - reflexivity.
+Qed.
+
+(** [dom_hyd] is the parsed DOM except for the content of placeholder text nodes *)
+Fixpoint skeleton_forest (l : list dom) : list dom :=
+  match l with [] => [] | k :: l => skeleton k :: skeleton_forest l end.
+Lemma skeleton_forest_app a b : skeleton_forest (a ++ b) = skeleton_forest a ++ skeleton_forest b.
+Proof. induction a as [|x a IH]; [reflexivity|]. cbn [app skeleton_forest]. now rewrite IH. Qed.
+Lemma skeleton_elem n a ks : skeleton (DElem n a ks) = DElem n a (skeleton_forest ks).
+Proof.
+  reflexivity.
+Qed.
+
+Theorem dom_hyd_same_nodes v : forall pos,
+  skeleton_forest (fst (dom_hyd v pos)) = skeleton_forest (fst (dom_of v pos)) /\
+  snd (dom_hyd v pos) = snd (dom_of v pos).
+Proof.
+  assert (Hseq : forall vs, Forall (fun v => forall pos,
+                   skeleton_forest (fst (dom_hyd v pos)) = skeleton_forest (fst (dom_of v pos)) /\
+                   snd (dom_hyd v pos) = snd (dom_of v pos)) vs ->
+                 forall pos, skeleton_forest (fst (hyd_seq vs pos)) = skeleton_forest (fst (dom_seq vs pos)) /\
+                             snd (hyd_seq vs pos) = snd (dom_seq vs pos)).
+  { intros vs IH. induction IH as [|x vs Hx _ IHvs]; intro pos; [split; reflexivity|].
+    cbn [hyd_seq dom_seq]. destruct (Hx pos) as [A B].
+    destruct (dom_hyd x pos) as [b1 p1]. destruct (dom_of x pos) as [c1 q1]. cbn [fst snd] in *. subst q1.
+    destruct (IHvs p1) as [A2 B2].
+    destruct (hyd_seq vs p1) as [b2 p2]. destruct (dom_seq vs p1) as [c2 q2]. cbn [fst snd] in *.
+    now rewrite !skeleton_forest_app, A, A2. }
+  induction v as [s| |n a ks IH|n a|vs IH|v IH| |v IH|v IH|vs IH|v IH|vs IH|e] using view_ind'; intro pos.
+  - cbn [dom_hyd dom_of fst snd]. destruct (pos_eqb pos NextChildAfterText); split; reflexivity.
+  - split; reflexivity.
+  - rewrite dom_hyd_elem, dom_of_elem. cbn [fst snd skeleton_forest]. rewrite !skeleton_elem.
+    destruct (Hseq ks IH FirstChild) as [A _]. now rewrite A.
+  - split; reflexivity.
+  - rewrite dom_hyd_tuple, dom_of_tuple. apply (Hseq vs IH).
+  - apply IH.
+  - split; reflexivity.
+  - apply IH.
+  - apply IH.
+  - rewrite dom_hyd_vec, dom_of_vec. cbn [fst snd]. destruct (Hseq vs IH pos) as [A _].
+    now rewrite !skeleton_forest_app, A.
+  - apply IH.
+  - rewrite dom_hyd_keyed, dom_of_keyed. cbn [fst snd]. destruct (Hseq vs IH pos) as [A _].
+    now rewrite !skeleton_forest_app, A.
+  - split; reflexivity.
+Qed.
